@@ -22,7 +22,7 @@ ASSUMPTIONS = [
 OUTSIDE = ["checkpoints that are not on epoch boundaries (the constructor refuses them)", "geometries above the enumerated bound"]
 BOUNDS = {
     "quick": "geometry enumerated n<=5; resume epoch k in 1..3 (symbolic), budget symbolic: epochs<=k+2 | updates,samples up to two epochs past the checkpoint; 0..1 config with symbolic intervals (sampled masks)",
-    "thorough": "geometry enumerated n<=6; k in 1..4; all 7 interval-kind masks, plus two configs",
+    "thorough": "geometry enumerated n<=6; two resume epochs out of 1..4 per geometry; 6 sampled interval-length combinations per case, plus two configs on sampled geometries",
 }
 MASKS = ["e", "u", "s", "eu", "es", "us", "eus"]
 
@@ -84,9 +84,9 @@ def conditions(tier, rng):
     for g in geos:
         for kind in ("epochs", "updates", "samples"):
             for how in ("epoch", "update", "sample"):
-                for k in (ks if not q else rng.sample(ks, 1)):
+                for k in (rng.sample(ks, 2) if not q else rng.sample(ks, 1)):
                     conds.append(resume_cond(g, kind, [], how, k, 2, to))
-                    for mk in (rng.sample(singles, 1) + rng.sample(multis, 1) if q else rng.sample(singles, 5) + rng.sample(multis, 5)):
+                    for mk in (rng.sample(singles, 1) + rng.sample(multis, 1) if q else rng.sample(singles, 3) + rng.sample(multis, 3)):
                         conds.append(resume_cond(g, kind, [mk], how, k, 2, to, m_max=2, cbs_max=1, ex_max=0))
     if not q:
         for g in rng.sample(geos, 24):
